@@ -102,6 +102,17 @@ func clipS(s []string) []string {
 
 func funcAll(c *core.Ctx, in []string, r *core.Rand) bool {
 	n := len(in)
+	// re-home the input in a buffer with 0..3 elements of spare capacity holding
+	// sentinels: helpers must work on len(slice), never read or write up to cap
+	spare := (n + len(in)*7) % 4
+	if in != nil {
+		buf := make([]string, n, n+spare)
+		copy(buf, in)
+		for i := n; i < n+spare; i++ {
+			buf[:n+spare][i] = "<spare>"
+		}
+		in = buf
+	}
 	snap := append([]string(nil), in...)
 	fail := func(sig, msg string) bool {
 		c.Violate(sig, fmt.Sprintf("%s [input %q]", msg, clipS(snap)), map[string]any{"input": snap})
@@ -110,6 +121,13 @@ func funcAll(c *core.Ctx, in []string, r *core.Rand) bool {
 	unchanged := func(op string) bool {
 		if !eqSlice(in, snap) {
 			return fail(op+":input-modified", op+" modified its input slice")
+		}
+		if in != nil {
+			for _, v := range in[:cap(in)][len(in):] {
+				if v != "<spare>" {
+					return fail(op+":wrote-beyond-len", op+" wrote into the spare capacity of its input slice")
+				}
+			}
 		}
 		return true
 	}
